@@ -33,9 +33,14 @@ import (
 func main() { vlib.Run("C33", run) }
 
 func run(c *vlib.Ctx) {
-	c.Rule("case = one random tree (depth <= 4; each directory basic or HAMT with fan-out 8/16/32/64/256 forced through NewHAMTDirectory, 0..MaxEntries entries inserted in random order; names include dag-pb field names, list indices, strings shaped like HAMT link labels, blanks, %, unicode; leaves are files of several layouts and symlinks). Every existing path (trees above 160 entries: every directory plus 160 sampled entries) is resolved with ResolveToLastNode, ResolvePath and ResolvePathComponents; per directory (at most 24 per tree) a set of non-existing names (fresh, edited/re-cased/truncated existing names, the raw shard link labels of existing entries, bare shard prefixes, 'Links'/'Data') is resolved as last segment and followed by further segments; a few paths continue below a file. Strata: small (<= 12 entries/dir), wide (root HAMT with up to 400 entries => >= 2 shard levels at fan-out 8/16), deep (depth 4). distinct = FNV of the tree listing + queries; non-trivial = the tree has a HAMT with >= 2 shard levels measured by a plain dag-pb walk, an existing path crossing >= 2 directories one of which is a HAMT was resolved, and a missing name was checked both inside a HAMT and in the middle of a path")
+	c.Rule("case = one random tree (depth <= 4; each directory basic or HAMT with fan-out 8/16/32/64/256 forced through NewHAMTDirectory, 0..MaxEntries entries inserted in random order; names include dag-pb field names, list indices, strings shaped like HAMT link labels, blanks, %, unicode; leaves are files of several layouts and symlinks). Every existing path (trees above 160 entries: every directory plus 160 sampled entries) is resolved with ResolveToLastNode, ResolvePath and ResolvePathComponents; per directory (at most 24 per tree) a set of non-existing names (fresh, edited/re-cased/truncated existing names, the raw shard link labels of existing entries, bare shard prefixes, 'Links'/'Data') is resolved as last segment and followed by further segments; a few paths continue below a file. The block store honours context cancellation (reads under a done context fail), like a real store or remote exchange. Strata: small (<= 12 entries/dir), wide-shards (root HAMT of fan-out 8/16 with 100..300 entries, so the parent of the last segment has lazily loaded inner shards), wide (root HAMT with up to 400 entries, any fan-out), deep (depth 4), empty-hamt. distinct = FNV of the tree listing + queries; non-trivial = the tree has a HAMT with >= 2 shard levels measured by a plain dag-pb walk, an existing path crossing >= 2 directories one of which is a HAMT was resolved, and a missing name was checked both inside a HAMT and in the middle of a path")
 	c.Cases("small", c.N(260, 1500), func(k *vlib.Case) { oneTree(k, ufsgen.TreeOpts{MaxDepth: 3, MaxEntries: 12, MaxFileSize: 600, Symlinks: true}) })
-	c.Cases("wide", c.N(120, 600), func(k *vlib.Case) { oneTree(k, ufsgen.TreeOpts{MaxDepth: 2, MaxEntries: 400, SubEntries: 30, MaxFileSize: 80, Symlinks: true, RootHAMT: 1}) })
+	c.Cases("wide-shards", c.N(60, 400), func(k *vlib.Case) {
+		// root = HAMT of fan-out 8/16 with >= 100 entries: the parent of the last
+		// segment has inner shard blocks that are loaded lazily during the lookup
+		oneTree(k, ufsgen.TreeOpts{MaxDepth: 1, MaxEntries: 300, SubEntries: 10, MaxFileSize: 60, Symlinks: true, RootHAMT: 1, RootMin: 100, RootFanout: []int{8, 16}})
+	})
+	c.Cases("wide", c.N(80, 400), func(k *vlib.Case) { oneTree(k, ufsgen.TreeOpts{MaxDepth: 2, MaxEntries: 400, SubEntries: 30, MaxFileSize: 80, Symlinks: true, RootHAMT: 1}) })
 	c.Cases("deep", c.N(120, 600), func(k *vlib.Case) { oneTree(k, ufsgen.TreeOpts{MaxDepth: 4, MaxEntries: 30, SubEntries: 14, MaxFileSize: 200, Symlinks: true}) })
 	// HAMT directories without entries (listed finding) only occur here
 	c.Cases("empty-hamt", c.N(16, 100), func(k *vlib.Case) { oneTree(k, ufsgen.TreeOpts{MaxDepth: 2, MaxEntries: 6, MaxFileSize: 100, Symlinks: true, EmptyHAMT: true}) })
@@ -77,7 +82,9 @@ func (w *world) failOnce(class, clause, expected, observed string) {
 
 func oneTree(k *vlib.Case, o ufsgen.TreeOpts) {
 	r := k.R
-	env := ufsgen.NewEnv()
+	// the store refuses reads under an already cancelled context, as a real
+	// store or a remote exchange does (the in-memory map alone ignores ctx)
+	env := ufsgen.NewEnvCtx()
 	root, err := ufsgen.GenTree(r, env, o)
 	if err != nil {
 		panic(err)
